@@ -16,6 +16,12 @@ def run(ctx):
         except ImportError:
             continue
         m.run_part(ctx)
+    # >>> a_c19 (wave 4): binary tape on every prefix; typed targets through every deserializer entry point; strict tape oracle,
+    # directed document endings, DOM readers and json() of the truncated parse
+    for name in ("C19_bintape", "C19_typed", "C19_view"):
+        m = __import__("props." + name, fromlist=["x"])
+        m.run_part(ctx)
+    # <<< a_c19
 
 
 def search(ctx):
